@@ -1,5 +1,6 @@
 import Cactus.Lemmas.Final
 import Cactus.Lemmas.Basic
+import Cactus.Lemmas.Shared.OneStep   -- `Shared.upgradeField_dead_none` (also used by `Props/C10.lean`)
 /-!
 # C05 — Weak handles observe destruction exactly
 
@@ -27,8 +28,8 @@ theorem C05_upgrade_dead_none (s : State) (fh fw : List Nat) (w o : Nat) (ob : O
 
 theorem C05_upgradeField_dead_none (s : State) (fh fw : List Nat) (k o : Nat) (ob : Obj)
     (hw : nthMod fw k = some o) (hc : s.cell o = some ob) (hd : ob.strong.isDead = true) :
-    applyAct s fh fw (.upgradeField k) = s.emit (retBool false) := by
-  simp [applyAct, hw, hc, hd]
+    applyAct s fh fw (.upgradeField k) = s.emit (retBool false) :=
+  Shared.upgradeField_dead_none s fh fw k o ob hw hc hd
 
 /-- on an object whose value has not been destroyed `upgrade` yields a handle to the same
 object and increments exactly its strong count -/
